@@ -22,6 +22,7 @@ use paseto_core::tokens::{{SealedToken, UnsealedToken}};
 use paseto_core::validation::NoValidation;
 use paseto_core::paserk::{{SealedKey, PieWrappedKey, PasswordWrappedKey}};
 use paseto_core::encodings::{{Payload, WriteBytes}};
+use {crate} as BE;
 type V = {crate}::core::{vty};
 type W = {ocrate}::core::{ovty};
 pub struct M;
@@ -73,6 +74,14 @@ TEMPLATES = {
     "payload_field_of_sealed": "pub fn probe(t: SealedToken<V, Public, M>) {{ let _ = t.payload; }}",
     "claims_of_unsealed": "pub fn probe(t: UnsealedToken<V, Local, M>) {{ let _ = t.claims; }}",
     "footer_of_unsealed": "pub fn probe(t: UnsealedToken<V, Public, M, Vec<u8>>) {{ let _ = t.footer; }}",
+    "debug_sealed": "pub fn probe(t: &SealedToken<V, Local, M, Vec<u8>>) -> String {{ format!(\"{{:?}}\", t) }}",
+    "alias_signed": "pub fn probe(t: BE::SignedToken<M>) -> SealedToken<V, Public, M> {{ t }}",
+    "alias_encrypted": "pub fn probe(t: BE::EncryptedToken<M>) -> SealedToken<V, Local, M> {{ t }}",
+    "alias_unsigned": "pub fn probe(t: BE::UnsignedToken<M>) -> UnsealedToken<V, Public, M> {{ t }}",
+    "alias_unencrypted": "pub fn probe(t: BE::UnencryptedToken<M>) -> UnsealedToken<V, Local, M> {{ t }}",
+    "alias_localkey": "pub fn probe(k: BE::LocalKey) -> Key<V, Local> {{ k }}",
+    "alias_publickey": "pub fn probe(k: BE::PublicKey) -> Key<V, Public> {{ k }}",
+    "alias_secretkey": "pub fn probe(k: BE::SecretKey) -> Key<V, Secret> {{ k }}",
     "footer_unverified": "pub fn probe(t: &SealedToken<V, Local, M, Vec<u8>>) {{ let _ = t.unverified_footer(); }}",
 }
 
